@@ -1658,8 +1658,20 @@ def check(run):
 
     for name, gen in (('shpr', gen_shpr_line), ('gpdr', gen_gpdr_line), ('kmlr', gen_kmlr_line)):
         table, lines = {}, []
+        gen_errors = 0
         for _ in range(run.scale(400, 6000)):
-            ln, tg = gen(g)
+            try:
+                ln, tg = gen(g)
+            except Exception as e:  # noqa
+                # the generator feeds the reader with what the implementation's own writer hands to the recording
+                # library stand-in: if the writer stops using the library the way the adapter model says, that is a
+                # broken correspondence (reported once per stream), not a harness failure
+                gen_errors += 1
+                if gen_errors == 1:
+                    run.disagreements.append({'stream': f'adapter-{name}', 'line': f'<generator {gen.__name__}>',
+                                              'impl': common.err_name(e) + ': ' + str(e)[:200],
+                                              'model': 'the writer drives the recording library stand-in without error'})
+                continue
             lines.append(ln)
             table[ln] = tg or ['plain']
         run.run_cases(f'adapter-{name}', lines, impl, None, tag=tags_of(table))
